@@ -13,6 +13,7 @@ import rules_canon
 import rules_storage
 import rules_dispatch
 import rules_level
+import rules_eval
 
 
 class Context:
@@ -83,6 +84,21 @@ PROPS = {
         "level_text": "exact static rule check over forest::createReducedNode, the caller tables, the allocation/deallocation sites and the twin swap routines; decides structural necessary conditions of the stored-node invariants",
         "design_ref": "DESIGN.md §2.7, §2.5, §3 C02",
         "level_note": "trusts clang 14 CFGs and the caller table in lib/rules_layer.py",
+    },
+    "C03": {
+        "title": "Functions built from minterms, constants and variables evaluate as specified",
+        "rules": [on_program(rules_eval.rule_level_sign), on_program(rules_eval.rule_twins), on_program(rules_eval.rule_eval_dispatch),
+                  on_program(rules_guard.rule_edge_for_value), on_program(rules_guard.rule_zero_of_stored)],
+        "explanation": STRUCTURAL + ". C03: evaluation clauses only ('evaluation never depends on how the function is represented internally'): the evaluation walk follows the minterm's unprimed value at unprimed levels and its primed value at primed levels "
+                       "(by-node walkers: from(X) on the X>0 edge, to(-X) on the other; by-level walker for identity-reduced relations: from, downLevel, to / from==to test for a skipped primed level, downLevel); "
+                       "the multi-terminal and the edge-valued walkers (all four edge-valued instantiations) make the same sequence of tests and steps; evaluate() selects the walker by set / relation / identity-reduced relation and instantiates the "
+                       "edge-valued helper with the edge operation and scalar type of the forest; and the value→edge encoding rejects a value of the wrong range type and chooses the EV* zero edge on the stored value.",
+        "assumptions": ["the construction half of C03 (the recursive partition builder over minterm collections, don't-care / don't-change expansion, max/min combination, default values) is pointwise value semantics and is not decided",
+                        "that the walk reads the right child is trusted to getDownPtr (decided structurally under C12's layout rule)"],
+        "technique": "guard-edge dominance and step-sequence patterns over clang CFGs of the evaluator helpers; twin comparison of the MT and EV walkers; control-dependence contexts of the walker selections",
+        "level_text": "exact static rule check over evaluator_helper_mt, every instantiation of evaluator_helper<EOP>, dd_edge::evaluate and forest::getEdgeForValue; decides structural necessary conditions of the evaluation clause, not the minterm builder",
+        "design_ref": "DESIGN.md §3 C03 (as built)",
+        "level_note": "trusts clang 14 CFGs; C03's construction clauses stay undecided and are listed under assumptions",
     },
     "C04": {
         "title": "Set algebra (union, intersection, difference, complement, cross) is pointwise",
@@ -270,10 +286,9 @@ PROPS = {
 
 _PENDING ="check under construction in this round (planned rules: DESIGN.md §3); not claimed until it runs"
 NOT_APPLICABLE = {
-    "C03": "pointwise value semantics of a recursive partition builder/evaluator over all minterm multisets: no structural necessary condition that is not brittle (DESIGN §3 C03)",
     "C18": "non-overlap/content preservation over arbitrary request/recycle sequences is a heap-shape invariant over run-time addresses; no abstract interpreter for these C++ units is available (DESIGN §3 C18)",
     "C20": "equality of two fixed-point computations over event lists; algorithmic semantics (DESIGN §3 C20)",
 }
-for _p in ("C01", "C02", "C04", "C05", "C06", "C07", "C08", "C09", "C10", "C11", "C12", "C13", "C14", "C15", "C16", "C19"):
+for _p in ("C01", "C02", "C03", "C04", "C05", "C06", "C07", "C08", "C09", "C10", "C11", "C12", "C13", "C14", "C15", "C16", "C19"):
     if _p not in PROPS:
         NOT_APPLICABLE[_p] = _PENDING
